@@ -628,7 +628,7 @@ func checkNoDrop(e *Env, m *e1Model, ts *ssa.Function) {
 			return false
 		}
 		st, _ := app.Type().Underlying().(*types.Slice)
-		return st != nil && (types.Identical(st.Elem(), types.Typ[types.String]) || isNamed(st.Elem(), load.PkgRoot, "SyscallWithConditions"))
+		return st != nil && (isProblemElem(st.Elem()) || isNamed(st.Elem(), load.PkgRoot, "SyscallWithConditions"))
 	})
 	r.Check(min == 1 && max == 1, "E1.nodrop", "toSyscallsWithConditions/one-outcome-per-plain-name", p.Pos(header.Instrs[0].Pos()),
 		"every plain name ends in exactly one of {entry appended, problem recorded}",
@@ -647,6 +647,11 @@ func outcomesPerIteration(fn *ssa.Function, header *ssa.BasicBlock, isOutcome fu
 		}
 		for _, in := range b.Instrs {
 			if isOutcome(in) {
+				term[b]++
+			}
+			// a helper of the module that records a problem on every path (`found.addf(...)` on a collector type) is the
+			// outcome "problem recorded"
+			if c, ok := in.(*ssa.Call); ok && isAppend(c) == nil && !isOutcome(in) && c.Call.StaticCallee() != nil && recordsProblem(in, 0) {
 				term[b]++
 			}
 			// a call of a local closure: the outcomes in its (branch-free) body happen here
